@@ -97,7 +97,58 @@ def contribution_tasks(run_, pkg, tier, prefix="C03-a"):
     return tasks
 
 
+def gradient_index_obligation(vtypes):
+    """C03-e: gradient_index is the running sum of COMPACT_DIMENSIONALITY in list order, _len_gradient the total."""
+    from ..interp import sym_pose
+    from ..algebra import CDIM
+
+    def fn(it):
+        verts = [it.construct("Vertex", [Poly.var("id%d" % k), sym_pose(t, "x%d" % k)]) for k, t in enumerate(vtypes)]
+        g = it.construct("Graph", [[], verts])
+        acc = 0
+        for k, (v, t) in enumerate(zip(verts, vtypes)):
+            gi = v.fields.get("gradient_index")
+            if not isinstance(gi, Poly) or gi != Poly.const(acc):
+                raise ObFail("vertex %d (%s) gets gradient_index %r, expected %d" % (k, t, gi, acc))
+            acc += CDIM[t]
+        lg = g.fields.get("_len_gradient")
+        if not isinstance(lg, Poly) or lg != Poly.const(acc):
+            raise ObFail("_len_gradient is %r, expected %d" % (lg, acc))
+        return dict(vertex_types=list(vtypes), len_gradient=acc)
+    return lambda pkg: run_obligation(pkg, fn)
+
+
 def run(run_, pkg, tier):
-    run_.explanation = "C03-a only so far (work in progress)"
+    from .. import optim_rules
+    from ..assembly import SCENARIOS, assembly_obligation
+    run_.explanation = ("a: BaseEdge.calc_chi2_gradient_hessian is translated for generic unary/binary/ternary edges with symbolic error, "
+                        "full symbolic information and symbolic Jacobians: it returns exactly {(g_k, e^T W J_k)} and {((g_i,g_j), "
+                        "J_i^T W J_j), i<=j}; b/c: the accumulator (reduce over _Chi2GradientHessian.update) and the dense-gradient / "
+                        "sparse-Hessian fill are interpreted in the algebraic domain on graph shapes with parallel edges, edges naming "
+                        "their vertices in either order, mixed dimensionalities, unary and ternary edges and several fixed subsets, and "
+                        "every entry of b and H equals the reference assembly sum J^T W e / sum J^T W J; d: CFG rules on optimize(): the "
+                        "step is spsolve(H, -b) on the system assembled from the current poses and every vertex is updated by "
+                        "pose += dx[g : g + c]; e: gradient indices are the running sum of compact dimensionalities.")
+    run_.trusted_base = ["gsverif.interp semantics of the modelled numpy/python subset", "scipy.sparse.linalg.spsolve returns H^-1 rhs",
+                         "real arithmetic instead of IEEE-754"]
+    run_.assumptions = ["floating-point accumulation order is not modelled", "graph shapes are finite samples; the analysed code treats "
+                        "list elements uniformly (its control flow depends on index structure only)"]
     tasks = contribution_tasks(run_, pkg, tier)
+    fn = pkg.method("Graph", "_calc_chi2_gradient_hessian")
+    for scn in SCENARIOS:
+        if scn.name.startswith("isolated"):
+            continue  # C06-e
+        key = "C03-bc/assembly/%s" % scn.name
+        if run_.wants(key):
+            tasks.append((key, "C03-bc-assembly", assembly_obligation(scn), "%s:%d" % (fn._gs_module, fn.lineno)))
+    ifn = pkg.method("Graph", "_initialize")
+    for vt in (["PoseR2", "PoseSE2", "PoseSE3", "PoseR3"], ["PoseSE3", "PoseR2"], ["PoseSE2"]):
+        key = "C03-e/gradient-index/%s" % "+".join(vt)
+        if run_.wants(key):
+            tasks.append((key, "C03-e-indexing", gradient_index_obligation(vt), "%s:%d" % (ifn._gs_module, ifn.lineno)))
     record(run_, tasks, run_tasks(pkg, tasks))
+    if run_.only is None:
+        oa = optim_rules.analyse(pkg)
+        n = optim_rules.report(run_, oa, ["C03-d"])
+        run_.floor("C03-d rule instances", n, 6)
+    run_.floor("C03 obligations", len(tasks) if run_.only is None else 16, 16)
